@@ -55,6 +55,23 @@ def meter() -> WorkMeter:
 # ---------------------------------------------------------------------------------------------
 # oracle (shared by Hypothesis, the exhaustive block and the atheris target)
 
+_OTHER: Optional[bytes] = None
+
+
+def _other_datagram() -> bytes:
+    """a well-formed query with known answers whose names sit at the usual offsets (question name at 12, compressed owners)"""
+    global _OTHER
+    if _OTHER is None:
+        t = wire.labels_of('_bravo._udp.local.')
+        inst = wire.labels_of('other thing._bravo._udp.local.')
+        _OTHER = wire.encode({'id': 0, 'flags': 0, 'qd': [{'name': t, 'type': 12, 'cls': 1}, {'name': inst, 'type': 33, 'cls': 1}],
+                              'an': [{'name': t, 'type': 12, 'cls': 1, 'ttl': 4500, 'rd': {'target': inst}},
+                                     {'name': inst, 'type': 33, 'cls': 1, 'ttl': 120,
+                                      'rd': {'prio': 0, 'weight': 0, 'port': 9, 'target': wire.labels_of('otherhost.local.')}}],
+                              'ns': [], 'ar': []})
+    return _OTHER
+
+
 def oracle(data: bytes, scope: Optional[int] = None) -> Dict[str, Any]:
     from zeroconf import DNSIncoming
 
@@ -62,6 +79,11 @@ def oracle(data: bytes, scope: Optional[int] = None) -> Dict[str, Any]:
     m.reset()
     try:
         inc = DNSIncoming(data, ('10.9.8.7', 5353), scope, 12345.0)
+        # a datagram is not always read at once (a truncated query is held for 400-500 ms and its known answers are read when the
+        # timer fires): another datagram is decoded in between, and that one's names must not show up in this one's records
+        l0, c0 = m.lines, m.calls
+        DNSIncoming(_other_datagram(), ('10.9.8.6', 5353), None, 12345.0).answers()
+        m.lines, m.calls = l0, c0               # (its work is not this datagram's)
         recs = inc.answers()
         qs = inc.questions
         inc.is_query()
